@@ -85,7 +85,8 @@ pub fn build(genes: Vec<u16>) -> ADoc {
         let nd = g.range(1, 3);
         let mut defs = vec![];
         for _ in 0..nd {
-            let name = QN::new(None, NAMES[g.pick(NAMES.len())]);
+            // now and then a prefixed name (the xml prefix needs no declaration)
+            let name = if g.chance(1, 6) { QN::new(Some("xml"), ["space", "lang", "id"][g.pick(3)]) } else { QN::new(None, NAMES[g.pick(NAMES.len())]) };
             let ty = att_type(&mut g);
             let default = match g.weighted(&[3, 1, 4, 3]) {
                 0 => DefaultDecl::Implied,
@@ -219,6 +220,10 @@ impl Property for C11 {
                     labels.push("literal-crlf".into());
                 }
                 let nontrivial = multi_piece || labels.iter().any(|l| l == "defaulted-attr");
+                let prefixed_decl = doc.doctype.as_ref().and_then(|d| d.decls.as_ref()).map(|ds| ds.iter().any(|d| matches!(d, ADecl::AttList { defs, .. } if defs.iter().any(|x| x.name.prefix.is_some())))).unwrap_or(false);
+                if prefixed_decl {
+                    labels.push("prefixed-declared-attribute".into());
+                }
                 let content_first = !doc.root.children.is_empty() && r.text.len() % 2 == 0;
                 if !doc.root.children.is_empty() {
                     labels.push(if content_first { "entity-in-content-read-first".into() } else { "entity-in-content-read-last".into() });
@@ -303,6 +308,14 @@ impl Property for C11 {
         let (key, detail) = match problem {
             None => return Verdict::Pass,
             Some(p) => p,
+        };
+        // look-ups by name go by the local part throughout the dom crate, and a defaulted attribute has no owner
+        // element to resolve its prefix with: with a prefixed declared attribute (xml:id next to id) get_attribute
+        // and the XPath name test pick the wrong one. Same root causes as two open findings of C17 and C05.
+        let key = if labels.iter().any(|l| l == "prefixed-declared-attribute") && matches!(key.as_str(), "c11.get-attribute" | "c11.xpath-string-of-attribute") {
+            "c11.prefixed-declared-attribute.looked-up-by-local-name".to_string()
+        } else {
+            key
         };
         let key = attribute("C11", &labels, key, TRIGGERS);
         if crate::engine::skip_known("C11", &key) {
